@@ -18,12 +18,13 @@ import (
 type lockSet uint32
 
 type LockModel struct {
-	p       *Prog
-	names   []string            // class index -> name ("dataStore.mu", "global clientsMu")
-	byVar   map[*types.Var]int  // mutex struct field -> class
-	byGlob  map[*ssa.Global]int // mutex global -> class
-	DB      int                 // class index of dataStore.mu (-1 if missing)
-	tokenOf map[*types.Var]int  // re-entrancy token field (dataStore.multiLock) -> class it vouches for
+	casDepth int
+	p        *Prog
+	names    []string            // class index -> name ("dataStore.mu", "global clientsMu")
+	byVar    map[*types.Var]int  // mutex struct field -> class
+	byGlob   map[*ssa.Global]int // mutex global -> class
+	DB       int                 // class index of dataStore.mu (-1 if missing)
+	tokenOf  map[*types.Var]int  // re-entrancy token field (dataStore.multiLock) -> class it vouches for
 
 	fl       map[*ssa.Function]*fnLocks
 	problems []string // unresolved lock operations (undecided)
@@ -367,6 +368,29 @@ func (lm *LockModel) tokenCAS(v ssa.Value) (class int, trueIsSuccess bool, ok bo
 		break
 	}
 	c, isC := v.(*ssa.Call)
+	if isC && !strings.HasPrefix(fullCalleeName(c), "sync/atomic.") {
+		// a predicate that wraps the test: func (x) insideExclusive() bool { return CAS(&token, id, id) }
+		if g := c.Call.StaticCallee(); g != nil && len(g.Blocks) > 0 && g.Signature.Results().Len() == 1 && lm.casDepth < 2 {
+			lm.casDepth++
+			defer func() { lm.casDepth-- }()
+			cls, tis, found := -1, false, false
+			for _, b := range g.Blocks {
+				ret, isRet := b.Instrs[len(b.Instrs)-1].(*ssa.Return)
+				if !isRet || len(ret.Results) != 1 {
+					continue
+				}
+				c2, t2, ok2 := lm.tokenCAS(ret.Results[0])
+				if !ok2 || (found && (c2 != cls || t2 != tis)) {
+					return -1, false, false
+				}
+				cls, tis, found = c2, t2, true
+			}
+			if found {
+				return cls, tis != neg, true
+			}
+		}
+		return -1, false, false
+	}
 	if !isC || !strings.HasPrefix(fullCalleeName(c), "sync/atomic.CompareAndSwap") || len(c.Call.Args) != 3 {
 		return -1, false, false
 	}
